@@ -64,7 +64,7 @@ func (Engine) Describe(prop string) core.Description {
 			"to-many relationships are compared as sets; nil and empty byte strings are the same value",
 		}
 		d.FaultKinds = []string{"F1-fragmentation", "F1-zero-length-read", "F1-eof-with-data"}
-		d.Probes = []string{"impl-soft", "impl-wrapped", "zone-non-utc", "value-uint64-above-2^63", "value-nul-string", "value-zoned-time", "value-empty-bytes", "value-nil-pointer"}
+		d.Probes = []string{"impl-soft", "impl-wrapped", "zone-non-utc", "value-uint64-above-2^63", "value-nul-string", "value-zoned-time", "value-empty-bytes", "value-nil-pointer", "receiver-overwrote-pointee", "damaged-delivery-first"}
 	case "C02":
 		d.Rule = "fault-free configuration (F1 only). One run = one seeded schema and document of any primary-data kind (nil, resource, SoftCollection / Resources / WrapperCollection of 0..5, Identifier, Identifiers) with 0..4 included resources, meta, resource meta, error objects, any prefix and field selection, marshaled, delivered through NewRequest (POST or PATCH) and compared: kind of primary data, resources in order with the selected fields' values, included (type, ID) set with equal values, JSON-equal meta, error objects in order and no data; " +
 			"non-trivial = the document carries data with at least one resource, or errors; distinct = distinct event-log hash"
@@ -74,7 +74,7 @@ func (Engine) Describe(prop string) core.Description {
 			"included resources have pairwise distinct (type, ID) pairs; the same ID under several types is generated on purpose",
 		}
 		d.FaultKinds = []string{"F1-fragmentation", "F1-zero-length-read", "F1-eof-with-data"}
-		d.Probes = []string{"kind-nil", "kind-resource", "kind-softcollection", "kind-resources", "kind-wrappercollection", "kind-identifier", "kind-identifiers", "with-errors", "with-included", "with-meta", "method-PATCH"}
+		d.Probes = []string{"kind-nil", "kind-resource", "kind-softcollection", "kind-resources", "kind-wrappercollection", "kind-identifier", "kind-identifiers", "with-errors", "with-included", "with-meta", "method-PATCH", "document-reused-with-other-included", "damaged-delivery-first"}
 	case "C05":
 		d.Rule = "faulty configuration. One run = one seeded schema and valid message, then 1..6 deliveries, each with one or two faults from the run's swarm-chosen subset (F2 truncation biased to structural bytes, F3 read error after k bytes, F4 bit flips / byte substitution, F5 duplication, F6 loss, F7 reorder of a fragment, F8 splice of two messages, F9 faulty sender: a member replaced by another JSON kind / dropped / renamed / duplicated, type replaced by an unknown name); the delivered bytes go to NewRequest and UnmarshalDocument, the (separately faulted) data member to UnmarshalResource, UnmarshalPartialResource, UnmarshalCollection, UnmarshalIdentifier and UnmarshalIdentifiers. Safety oracle only: no panic, error xor result, every returned resource conforms to the schema; " +
 			"non-trivial = at least one delivery whose bytes differ from the valid message; distinct = distinct event-log hash"
@@ -82,8 +82,8 @@ func (Engine) Describe(prop string) core.Description {
 			"decides C05 on the byte strings reachable from valid messages by transport and sender faults (including high-rate corruption), not on all byte strings in the abstract",
 			"'no result' on error: nil / zero value / empty list",
 		}
-		d.FaultKinds = append([]string{"F1-fragmentation"}, wire.AllFaults...)
-		d.Probes = []string{"delivery-accepted", "delivery-rejected", "result-conformance-checked", "read-error-propagated", "truncated-inside-string", "unknown-type-in-body", "partial-accepted", "collection-accepted", "identifier-accepted"}
+		d.FaultKinds = append(append([]string{"F1-fragmentation"}, wire.AllFaults...), "F10-bloat")
+		d.Probes = []string{"delivery-accepted", "delivery-rejected", "result-conformance-checked", "read-error-propagated", "truncated-inside-string", "unknown-type-in-body", "partial-accepted", "collection-accepted", "identifier-accepted", "schema-edited-between-deliveries"}
 	}
 
 	return d
@@ -302,6 +302,24 @@ func runC01(t *core.Tape, st *core.Stats) *core.Violation {
 
 	if len(ts.Attrs)+len(ts.Rels) > 0 {
 		st.MarkNonTrivial()
+	}
+
+	// The receiver owns what it received: it may overwrite the values behind the
+	// pointers of nullable attributes. That must not reach any later message (the
+	// next runs of this worker process decode into fresh storage or they fail).
+	if t.Bool(1, 4) {
+		core.Call(func() {
+			for _, a := range ts.Attrs {
+				if !a.Nullable {
+					continue
+				}
+
+				if rv := reflect.ValueOf(got2.Get(a.Name)); rv.IsValid() && rv.Kind() == reflect.Ptr && !rv.IsNil() {
+					rv.Elem().Set(reflect.Zero(rv.Elem().Type()))
+					st.Inc("probe:receiver-overwrote-pointee")
+				}
+			}
+		})
 	}
 
 	return nil
@@ -730,6 +748,59 @@ func runC02(t *core.Tape, st *core.Stats) *core.Violation {
 
 	if len(ds.Primary)+len(ds.Idents)+len(ds.Included) > 0 {
 		st.MarkNonTrivial()
+	}
+
+	// The same Document value, given as many other included resources, is sent
+	// again: what comes back must be the new ones.
+	if len(ds.Included) > 0 && t.Bool(1, 3) {
+		var neu []*world.ResSpec
+
+		for i := range ds.Included {
+			ts := spec.Types[t.Draw(len(spec.Types))]
+			neu = append(neu, world.DrawResSpec(t, ts, fmt.Sprintf("second%d", i)))
+		}
+
+		var (
+			msg2 []byte
+			doc2 *jsonapi.Document
+		)
+
+		if p := core.Call(func() {
+			doc.Included = nil
+			for _, rs := range neu {
+				doc.Included = append(doc.Included, rs.Clone().Materialise(schema))
+			}
+
+			if msg2, err = jsonapi.MarshalDocument(doc, u); err == nil {
+				doc2, err = jsonapi.UnmarshalDocument(msg2, schema)
+			}
+		}); p != nil {
+			return viol(P, "no-panic", p.Func, "second-send-"+ds.Kind+":"+p.Class, "sending the re-used document panicked: %s", p.Value)
+		}
+
+		st.Inc("probe:document-reused-with-other-included")
+
+		if err != nil {
+			return viol(P, "round-trip-accepted", "UnmarshalDocument", ds.Kind+":reused-document", "the re-used document does not survive the round trip: %v\n    message: %s", err, msg2)
+		}
+
+		if len(doc2.Included) != len(neu) {
+			return viol(P, "same-included", "UnmarshalDocument", ds.Kind+":reused-document", "%d included resources sent with the re-used document, %d received\n    message: %s", len(neu), len(doc2.Included), msg2)
+		}
+
+		for _, want := range neu {
+			found := false
+
+			for _, g := range doc2.Included {
+				if g.GetType().Name == want.Type.Name && g.Get("id") == want.ID {
+					found = true
+				}
+			}
+
+			if !found {
+				return viol(P, "same-included", "UnmarshalDocument", ds.Kind+":reused-document", "the document was given other included resources and sent again; %q/%q did not come back\n    message: %s", want.Type.Name, want.ID, msg2)
+			}
+		}
 	}
 
 	return nil
